@@ -65,6 +65,8 @@ type GenKnobs struct {
 	EntityEscrow   []uint64 `json:"entity_escrow"`
 	EntityBalance  []uint64 `json:"entity_balance"`
 	AccountBalance []uint64 `json:"account_balance"`
+	// AccountNonce are the genesis nonces of the plain accounts (boundary values near 2^64-1).
+	AccountNonce []uint64 `json:"account_nonce,omitempty"`
 	// Scheduler.
 	MinValidators          int `json:"min_validators"`
 	MaxValidators          int `json:"max_validators"`
@@ -86,6 +88,10 @@ type GenKnobs struct {
 	ShortExpiry  uint64 `json:"short_expiry"`
 	Runtime      bool   `json:"runtime"`
 	ComputeNodes int    `json:"compute_nodes"`
+	// RtMaxInMessages / RtMinInMsgFee: incoming-message queue size and minimum message fee of
+	// the genesis runtime (roothash.SubmitMsg).
+	RtMaxInMessages uint32 `json:"rt_max_in_messages,omitempty"`
+	RtMinInMsgFee   uint64 `json:"rt_min_in_msg_fee,omitempty"`
 }
 
 // World holds the deterministic key material and derived identities of a scenario.
@@ -345,6 +351,9 @@ func BuildWorld(k GenKnobs) (*World, error) {
 			acct.General.Balance = q(k.AccountBalance[i])
 			add(k.AccountBalance[i])
 		}
+		if i < len(k.AccountNonce) {
+			acct.General.Nonce = k.AccountNonce[i]
+		}
 		st.Ledger[addr] = acct
 	}
 	st.TotalSupply = *total
@@ -378,7 +387,9 @@ func BuildWorld(k GenKnobs) (*World, error) {
 				MaxBatchSize:      10,
 				MaxBatchSizeBytes: 1024,
 				ProposerTimeout:   2 * time.Second,
+				MaxInMessages:     k.RtMaxInMessages,
 			},
+			Staking:         registry.RuntimeStakingParameters{MinInMessageFee: q(k.RtMinInMsgFee)},
 			AdmissionPolicy: registry.RuntimeAdmissionPolicy{AnyNode: &registry.AnyNodeRuntimeAdmissionPolicy{}},
 			Constraints: map[scheduler.CommitteeKind]map[scheduler.Role]registry.SchedulingConstraints{
 				scheduler.KindComputeExecutor: {
